@@ -51,6 +51,7 @@ class Response:
         self.raw_lines = 0
         self.notes = 0
         self.note_texts = []
+        self.stdout_noise = None
 
     def fatal_class(self):
         """Classify a run that did not finish cleanly; None if it did."""
@@ -176,6 +177,8 @@ class Zsim:
             elif line.startswith("viol "):
                 t = line.split()
                 r.viol = (t[1], P.hexdec(t[2]).decode("latin-1") if len(t) > 2 else "")
+            elif line.startswith("note stdout "):
+                r.stdout_noise = P.hexdec(line.split()[2])
             elif line.startswith("note "):
                 r.notes += 1
                 t = line.split()
